@@ -2,9 +2,9 @@
 CONSTANTS
   Designs <- DesignsQuick
   Growths <- G3
-  MaxNonUnit = 2
+  MaxNonUnit = 1
   LevelTriples <- TriplesEmit
-  BreakStep = 1
+  BreakStep = 2
   FromInput <- FromBoth
   ExplicitTargets = TRUE
   Refusals = TRUE
